@@ -676,10 +676,9 @@ fn c11_constructors() {
 
 // ---------------------------------------------------------------- default trait methods on a user sink
 /// Minimal user sink: implements only the four required methods, records the bits in a
-/// 192-bit accumulator.  The harness compares what it received with the model.
+/// fixed 512-bit accumulator (no heap), can be told to fail on its k-th operation.
 pub(crate) struct RecSink {
-    pub hi: u128,   // first 128 bits, MSB first
-    pub lo: u64,    // next 64 bits
+    pub words: [u64; 8], // MSB first
     pub len: usize,
     pub ops: usize,
     pub fail_at: usize, // operation index at which to fail (usize::MAX = never)
@@ -691,7 +690,8 @@ impl std::fmt::Display for RecErr {
 }
 impl std::error::Error for RecErr {}
 impl RecSink {
-    pub fn new(fail_at: usize) -> Self { Self { hi: 0, lo: 0, len: 0, ops: 0, fail_at } }
+    pub const CAP: usize = 512;
+    pub fn new(fail_at: usize) -> Self { Self { words: [0; 8], len: 0, ops: 0, fail_at } }
     fn tick(&mut self) -> Result<(), RecErr> {
         let k = self.ops;
         self.ops += 1;
@@ -701,20 +701,40 @@ impl RecSink {
     pub fn put(&mut self, vv: u64, n: usize) {
         if n == 0 { return; }
         let vv = (vv >> (64 - n)) << (64 - n);
-        let pos = self.len;
-        assert!(pos + n <= 192);
-        // 192-bit string = hi (128) ++ lo (64); place vv at bit position pos
-        if pos < 128 {
-            self.hi |= ((vv as u128) << 64) >> pos;
-            if pos + n > 128 {
-                // overflow part into lo
-                let used = 128 - pos; // bits that fit in hi (>= 1, < 64 here since n <= 64)
-                self.lo |= vv << used;
-            }
-        } else {
-            self.lo |= vv >> (pos - 128);
+        let w = self.len / 64;
+        let off = self.len % 64;
+        assert!(self.len + n <= Self::CAP);
+        self.words[w] |= vv >> off;
+        if off + n > 64 {
+            self.words[w + 1] |= vv << (64 - off);
         }
         self.len += n;
+    }
+    /// the first 128 bits as one integer (for the default-method harness)
+    pub fn hi(&self) -> u128 { ((self.words[0] as u128) << 64) | self.words[1] as u128 }
+    /// bit i (0 = first bit written)
+    pub fn bit(&self, i: usize) -> bool { (self.words[i / 64] >> (63 - i % 64)) & 1 == 1 }
+    /// byte j of the recorded string
+    pub fn byte(&self, j: usize) -> u8 { (self.words[j / 8] >> (56 - 8 * (j % 8))) as u8 }
+    /// true iff self's recorded bits are a prefix of other's
+    pub fn is_prefix_of(&self, other: &RecSink) -> bool {
+        if self.len > other.len { return false; }
+        let mut i = 0;
+        let mut ok = true;
+        while i < 8 {
+            let lo = i * 64;
+            if self.len >= lo + 64 {
+                if self.words[i] != other.words[i] { ok = false; }
+            } else if self.len > lo {
+                let keep = self.len - lo;
+                let mask = !0u64 << (64 - keep);
+                if self.words[i] != (other.words[i] & mask) { ok = false; }
+            } else if self.words[i] != 0 {
+                ok = false;
+            }
+            i += 1;
+        }
+        ok
     }
 }
 impl BitSink for RecSink {
@@ -758,7 +778,7 @@ fn c11_user_sink_defaults() {
     kani::assume(pre <= 20);
     let prev: u64 = kani::any();
     s.put(prev, pre);
-    let hi0 = s.hi;
+    let hi0 = s.hi();
     let which: u8 = kani::any();
     if which == 0 {
         let bytes: [u8; 3] = kani::any();
@@ -774,7 +794,7 @@ fn c11_user_sink_defaults() {
             if i < nb { v |= (bytes[i] as u128) << (120 - 8 * i); }
             i += 1;
         }
-        assert!(s.hi == hi0 | (v >> (pre + pad)));
+        assert!(s.hi() == hi0 | (v >> (pre + pad)));
         kani::cover!(nb == 3 && pad == 1);
     } else if which == 1 {
         let val: i32 = kani::any();
@@ -783,14 +803,14 @@ fn c11_user_sink_defaults() {
         assert!(s.write_twoc(val, n).is_ok());
         assert!(s.len == pre + n);
         let field = ((val as i64 as u64) << (64 - n)) as u128;
-        assert!(s.hi == hi0 | ((field << 64) >> pre));
+        assert!(s.hi() == hi0 | ((field << 64) >> pre));
         kani::cover!(val < 0 && n == 17);
     } else {
         let n: usize = kani::any();
         kani::assume(n <= 130);
         assert!(s.write_zeros(n).is_ok());
         assert!(s.len == pre + n);
-        assert!(s.hi == hi0 && s.lo == 0);
+        assert!(s.hi() == hi0 && s.words[2] == 0 && s.words[3] == 0);
         kani::cover!(n == 129);
     }
 }
